@@ -66,6 +66,11 @@ def shard(ctx):
             jobs.append(("frontier", "exe-%s-%s" % (where, "terminated" if term else "unterminated"), seeds.build_exe(rng, where=where, terminated=term), {}))
     jobs.append(("frontier", "exe-old-url", seeds.build_exe(rng, needle="https://frontier.ffxiv.com", tail="/version_5_0_win/index.html"), {}))
     mine = [j for i, j in enumerate(jobs) if i % ctx.nshards == ctx.index] + [jobs[(ctx.index * 5 + 3) % len(jobs)]]
+    if P.get("cap") is None:
+        large = seeds.seeds_large(rng)
+        for k, (kind, lab, data) in enumerate(large):
+            if k % ctx.nshards == ctx.index % max(1, min(ctx.nshards, len(large))):
+                mine.append((kind, lab, data, dict(large=True, text=kind in ("exl", "cfg", "plist.game"), patch=kind == "zp.apply", big_endian=kind == "zp.apply")))
     cap = P.get("cap")
     if cap is not None:
         # interpreter stage: the entry points that reach `unsafe` first (UTF-16 reinterpretation in the executable scan, inflate
@@ -76,6 +81,13 @@ def shard(ctx):
         budget = P["budget"] if kind != "zp.apply" else max(600, P["budget"] // 4)
         if opt.get("small"):
             budget = max(400, budget // 4)
+        if opt.get("large"):
+            # the intact file, two truncations and a handful of sampled faults: the question here is cost, not parsing
+            n = len(data)
+            muts = [(n, 0, 0, "truncate"), (n // 2, 0, 0, "truncate"), (n - 1, 0, 0, "truncate")] + [(rng.randrange(n), 1, rng.randrange(256), "random-byte") for _ in range(5)]
+            ctx.stats.classes["large-valid-seed:%s" % kind] += 1
+            faults.run_batch(ctx, kind, data, muts, label=lab)
+            continue
         focus = []
         if opt.get("patch"):
             # the head of every chunk (size, tag, SQPK command header / directory name length), wherever it lies in the file
